@@ -53,7 +53,7 @@ def explore(ck):
             if h != miss: c.add_record(b, h, 0, off)
         c.meta['cbs'] = ['csv', 'unspent']; c.meta['T'] = 6; expect[c.id] = list(range(miss)); cases.append(c)
     # high-height windows: index holds H-1..H+k, run with -s H
-    for H in ([300, 16511, 2113663] if quick else [127, 128, 300, 16511, 16512, 2113663, 2113664, 13000000]):
+    for H in ([300, 16511, 2113663, 2**32 - 1, 2**53 + 1, 2**63] if quick else [127, 128, 300, 16511, 16512, 2113663, 2113664, 13000000, 2**31, 2**32 - 1, 2**32, 2**53 + 1, 2**63, 2**64 - 200]):
         n = 4; coin = r.choice(gen.ALL_COINS)
         blocks = chain_for(r, coin, n + 1)
         for s, e in [(H, None), (H, H + 1), (H + 1, H + 2), (H, H + 100)]:
